@@ -343,8 +343,26 @@ def solve_all(specs, jobs, workers=12):
         if workers == 1 or os.environ.get("KERNVC_SERIAL"):
             return [solve_job(i) for i in range(n)]
         ctx = multiprocessing.get_context("fork")
-        with ctx.Pool(workers) as pool:
-            res = pool.map(solve_job, range(n), chunksize=1)
+        from concurrent.futures import ProcessPoolExecutor
+        res = [None] * n
+        pending = list(range(n))
+        for attempt in range(2):
+            if not pending:
+                break
+            # a crashed worker (z3 segfault) breaks the pool: survivors are kept, the rest retried
+            # once in a fresh pool, then reported as checker errors (never as verdicts)
+            w = workers if attempt == 0 else max(1, min(4, len(pending)))
+            with ProcessPoolExecutor(max_workers=w, mp_context=ctx) as ex:
+                futs = {i: ex.submit(solve_job, i) for i in pending}
+                for i, f in futs.items():
+                    try:
+                        res[i] = f.result()
+                    except Exception:
+                        res[i] = None
+            pending = [i for i in pending if res[i] is None]
+        for i in pending:
+            res[i] = {"status": "error", "backend": "z3", "time": 0.0, "model_inputs": None,
+                      "detail": "solver worker process died twice on this query"}
         return res
     finally:
         shutil.rmtree(tmpdir, ignore_errors=True)
